@@ -2,6 +2,7 @@
 package main
 
 import (
+	"time"
 	"bufio"
 	"crypto/sha256"
 	"encoding/hex"
@@ -513,3 +514,8 @@ func unsafeRelName(s string, mayClimb bool) string {
 	}
 	return ""
 }
+
+// caseTimeout: how long one call of the code under test may take before it counts as a hang.  Generous on
+// purpose: on a loaded machine (several checks at once) a healthy call was seen to need more than 20 s, which
+// was reported as a timeout of the unchanged code (thorough tier, seed 1, three sweeps in parallel).
+const caseTimeout = 90 * time.Second
